@@ -38,6 +38,8 @@ type Config struct {
 	// Overwrite builds the TapeManager with overwrite=true, as `stfs operation initialize` and
 	// `operation archive --overwrite` do: the first writer starts from an empty tape, later ones append.
 	Overwrite bool `json:"overwrite,omitempty"`
+	// ReadKeySlot: key pair the reading side uses ("" = "main", the pair the writer used; "other" = a stranger's)
+	ReadKeySlot string `json:"readkeys,omitempty"`
 }
 
 func (c Config) String() string {
@@ -159,6 +161,9 @@ func OpenPaths(drive, db, scratch string, cfg Config, ks *KeySet, w *Wrap) (*Ins
 	}
 	inst.Backend = bc
 	rc, wc, err := ks.Crypto(cfg)
+	if err == nil && cfg.ReadKeySlot != "" {
+		rc, wc, err = ks.CryptoSlots(cfg, cfg.ReadKeySlot, "main")
+	}
 	if err != nil {
 		return nil, err
 	}
